@@ -184,7 +184,7 @@ def main(chk):
             prog, exp = gen_history(rng, fam, 8)
             cases.append((fam[0], prog, exp))
     rng.setstate(st0)
-    n = 150 if chk.tier == "quick" else 2000
+    n = 150 if chk.tier == "quick" else 6000
     for _ in range(n):
         fam = rng.choice(FAMILIES)
         prog, exp = gen_history(rng, fam, rng.randint(4, 10 if chk.tier == "quick" else 30))
